@@ -36,6 +36,7 @@ def main():
     ap.add_argument("--tier", default="quick")
     ap.add_argument("--no-store", action="store_true")
     a = ap.parse_args()
+    a.src = os.path.abspath(a.src)
     checks = (a.checks or a.prop).split(",")
     wt = "/tmp/sv_%s_%d" % (a.seed_id.replace("/", "_"), os.getpid())
     rc, out = sh(["git", "-C", "/repo", "worktree", "add", "-q", "--detach", wt, "HEAD"])
